@@ -138,12 +138,26 @@ impl FixtureDatabase {
                 .file_cache
                 .get(&file_path)
                 .map(|cached| std::sync::Arc::clone(cached.value()));
+            let indexed = self.file_definitions.contains_key(&file_path)
+                || self.imports.contains_key(&file_path)
+                || self.usages.contains_key(&file_path);
             match buffer {
+                // Nothing is indexed for the document: its buffer does not parse (or has not
+                // been analysed yet). The file on disk is its last valid version, which
+                // stays in effect - index it, and keep the editor's text in the cache.
+                buffer if !indexed => {
+                    self.analyze_file_unlocked(file_path.clone(), content, false);
+                    if let Some(buffer) = buffer {
+                        // (remember the AST of the version just indexed for its imports)
+                        let _ = self.get_parsed_ast(&file_path, content);
+                        self.file_cache.insert(file_path, buffer);
+                    }
+                }
                 // A re-analysis that refreshes flags (plugin phases): use the buffer
                 Some(buffer) if cleanup_previous => {
                     self.analyze_file_unlocked(file_path, &buffer, true);
                 }
-                // The plain walk: the analysis of the buffer stands (or is about to come)
+                // The plain walk: the analysis of the buffer stands
                 _ => {}
             }
             return;
